@@ -78,6 +78,7 @@ pub fn op(profile: Profile) -> BoxedStrategy<Op> {
 		3 => Just(Op::ToWait),
 		2 => Just(Op::Run),
 		1 => ms_pool().prop_map(|delay| Op::RunAsync { delay }),
+		1 => Just(Op::RawContinue),
 	];
 	match profile {
 		Profile::General => prop_oneof![
@@ -138,6 +139,7 @@ pub const LIFECYCLE: &[fn() -> Op] = &[
 	|| Op::ToWait,
 	|| Op::Delete,
 	|| Op::DeleteNow,
+	|| Op::RawContinue,
 ];
 
 /// Child classes for the bounded-exhaustive legs.
